@@ -140,7 +140,8 @@ class Run:
         with open(os.path.join(EVIDENCE_DIR, f"{self.prop}.json"), "w", encoding="utf-8") as f:
             json.dump(ev, f, ensure_ascii=False, indent=1)
         for key, v in listed:
-            print(f"KNOWN-FINDING: property={self.prop} {known[key].get('what', v['what'])} [key={key}; {v['count']} case(s) this run]")
+            w = " ".join(str(known[key].get("what", v["what"])).split())
+            print(f"KNOWN-FINDING: property={self.prop} {short(w, 260)} [key={key}; {v['count']} case(s) this run]")
         if unstable:
             print(f"MACHINERY-ERROR property={self.prop}: violation(s) did not reproduce from scratch: {unstable[:5]}")
             return 2
@@ -157,7 +158,7 @@ class Run:
                                "replay": v["replay"]}, f, ensure_ascii=False, indent=1)
                 if i < 25:
                     print(f"VIOLATION property={self.prop} replay={path}")
-                    print(f"   key={key}  ({v['count']} case(s))  {short(v['what'], 400)}")
+                    print(f"   key={key}  ({v['count']} case(s))  {short(' '.join(str(v['what']).split()), 400)}")
             if len(new) > 25:
                 print(f"   … and {len(new) - 25} more distinct violation keys")
             code = 1
